@@ -179,13 +179,13 @@ class Filenames(object):
                     currentns['num'] = ('%%.%sd' % format) % num
                 # Limit other variables to specified number of words
                 elif format and key in currentns:
-                    value = currentns[key].split()
-                    newvalue = []
-                    for i in range(int(format)):
-                        newvalue.append(value.pop(0))
-                        if not value:
-                            break
-                    currentns[key] = ' '.join(newvalue)
+                    # (count the words before the forbidden characters,
+                    # which may include the blank, are replaced)
+                    value = ' '.join(self.variables[key].split()[:int(format)])
+                    if self.charsub:
+                        for char in self.charsub[0]:
+                            value = value.replace(char, self.charsub[1])
+                    currentns[key] = value
             try:
                 # Strip formats
                 item = re.sub(r'(\$\{\w+)\.\d+(\})', r'\1\2', item)
@@ -221,13 +221,13 @@ class Filenames(object):
                         currentns['num'] = ('%%.%sd' % format) % num
                     # Limit other variables to specified number of words
                     elif format and key in currentns:
-                        value = currentns[key].split()
-                        newvalue = []
-                        for i in range(int(format)):
-                            if not value:
-                                break
-                            newvalue.append(value.pop(0))
-                        currentns[key] = ' '.join(newvalue)
+                        # (count the words before the forbidden characters,
+                        # which may include the blank, are replaced)
+                        value = ' '.join(self.variables[key].split()[:int(format)])
+                        if self.charsub:
+                            for char in self.charsub[0]:
+                                value = value.replace(char, self.charsub[1])
+                        currentns[key] = value
                 try:
                     # Strip formats
                     item = re.sub(r'(\$\{\w+)\.\d+(\})', r'\1\2', item)
